@@ -8,6 +8,8 @@ from world.udpworld import conn_mod
 from world import refmodel as R
 
 WIDTHS = (8, 16, 64, 128, 256)
+# offsets at which ring arithmetic has its edges; applied to every distinct sequence value a history produces
+EDGE_OFFSETS = (1, -1, 31, 32, 33, -32, -33, 255, 256, 257, -256, -257, 32766, 32767, -32766, -32767)
 
 
 class WindowMonitor(Monitor):
@@ -54,9 +56,9 @@ class WindowMonitor(Monitor):
             bad = None
             if a.diff(b) != d:
                 bad = ("diff", a.diff(b), d)
-            elif abs(d) < 32767 and a.newer_than(b) != (d > 0):
+            elif abs(d) <= 32767 and a.newer_than(b) != (d > 0):
                 bad = ("newer_than", a.newer_than(b), d > 0)
-            elif abs(d) < 32767 and d != 0 and ((a > b) != (d > 0) or (a < b) != (d < 0)):
+            elif abs(d) <= 32767 and d != 0 and ((a > b) != (d > 0) or (a < b) != (d < 0)):
                 bad = ("lt/gt", (a > b, a < b), d)
             elif int(a + 1) != R.ring_add(ia, 1) or int(a - 1) != R.ring_add(ia, -1) or int(a + 1) == 0 or int(a - 1) == 0:
                 bad = ("+/-1", (int(a + 1), int(a - 1)), (R.ring_add(ia, 1), R.ring_add(ia, -1)))
@@ -78,6 +80,10 @@ class WindowMonitor(Monitor):
                     mon.shadows[k] = [(BF(wd), R.WindowModel(wd)) for wd in WIDTHS]
             mon.inserts += 1
             s = int(seqnum)
+            if s not in mon.values and s != 0:
+                a_ = seqnum if isinstance(seqnum, SeqNum) else SeqNum(s)
+                for off in EDGE_OFFSETS:
+                    seq_arith(a_, SeqNum(R.ring_add(s, off)))
             mon.values.add(s)
             if bf.current_seqnum != 0:
                 seq_arith(bf.current_seqnum, seqnum if isinstance(seqnum, SeqNum) else SeqNum(s))
@@ -151,6 +157,7 @@ class C08(UdpCheck):
     ncases = {"quick": 200, "thorough": 20000}
     per_run_wall_s = 400
     chunk = 1
+    shrink_s = 60
     rule = ("case = the adversarial duplication/reordering/replay worlds of C04 (incl. runs that send > 65535 datagrams per "
             "direction); every BitField the protocol creates is mirrored by a set-based reference model (newest + set of "
             "received seqs) and, for the datagram window, by shadow BitFields of widths 8,16,64,128,256 fed the same arrival "
